@@ -4,7 +4,7 @@ open PytypeModel.Sem
 
 /-! protocol (prefix token strings, see harness/c02.py `ann_tok`/`val_tok`/`hier_tok`):
 `hier n (len c…)*n`                 → sets the hierarchy (no output)
-`chk <ann tokens> | <val tokens>`   → `<arg> <ret> <asg> <member> <inF2> <guard> <pyDistinct> <singleView>` (0/1 each;
+`chk <ann tokens> | <val tokens>`   → `<arg> <ret> <asg> <member> <inF2> <guard> <pyDistinct> <singleView> <valInF2>` (0/1 each;
                                        the first three are `siteError`)
 anything else                       → `bad-op` -/
 
@@ -104,7 +104,7 @@ def stepC02 (H : Hierarchy) (line : String) : Hierarchy × Option String :=
       | some (v, []) =>
         let t := abs v
         (H, some (" ".intercalate [bit (siteError H .arg t a), bit (siteError H .ret t a), bit (siteError H .asg t a),
-          bit (member H v a), bit (InF2 H a), bit (Guard v a), bit v.pyDistinct, bit t.singleView]))
+          bit (member H v a), bit (InF2 H a), bit (Guard v a), bit v.pyDistinct, bit t.singleView, bit v.inF2]))
       | _ => (H, some "bad-op")
     | _ => (H, some "bad-op")
   | _ => (H, some "bad-op")
